@@ -34,8 +34,10 @@ type TxMut struct {
 }
 
 type TxMutCase struct {
-	N   int     `json:"n"`
-	Txs []TxMut `json:"txs"`
+	// Unaccepted: elections rotate the proposer (electing period 20 s, no accept timeout)
+	Unaccepted bool    `json:"unaccepted,omitempty"`
+	N          int     `json:"n"`
+	Txs        []TxMut `json:"txs"`
 }
 
 var baseNames = []string{"NewBlockHashes", "NewPubkey", "ProcessWithdrawal", "ReplaceWithdrawal", "NewConsolidation", "NewDeposits",
@@ -284,7 +286,14 @@ func mutateBytes(raw []byte, kind int, arg uint64) []byte {
 
 func runTxMutCase(c TxMutCase) Outcome {
 	o := Outcome{}
-	f, err := newVoteFixture(c.N, 1, 1, false)
+	// in a third of the cases elections rotate the proposer every 20 s of block time (no accept timeout): a freshly
+	// elected proposer has not accepted its role, and a failing transaction of it must not flip that flag either
+	period := 1000 * time.Hour
+	if c.Unaccepted {
+		period = 20 * time.Second
+		o.Classes = append(o.Classes, "rotating-proposer")
+	}
+	f, err := newVoteFixtureWith(c.N, 1, 1, false, period, 0)
 	if err != nil {
 		o.Fail = failf("fixture", "fixture-failed", "%v", err)
 		return o
@@ -348,12 +357,18 @@ func runTxMutCase(c TxMutCase) Outcome {
 				o.Fail = failf("failed-changes-nothing", "failed-transaction-changed-state", "%s: module state differs from the block without it: %v", where, tw.DumpWith.Diff(tw.DumpWithout))
 				return o
 			}
-			m3, err := f.honestMsg(body, rv)
+			// (an election at the end of the failing block may have changed epoch and proposer)
+			rv3, err := sim.Node.RelayerView()
+			if err != nil {
+				o.Fail = failf("query", "query-failed", "%v", err)
+				return o
+			}
+			m3, err := f.honestMsg(body, rv3)
 			if err != nil {
 				o.Fail = failf("fixture", "vote-build-failed", "%v", err)
 				return o
 			}
-			raw3, err := sim.Node.Tx(relProp, 0, world.TxOpts{}, m3)
+			raw3, err := sim.Node.Tx(f.memberAcc(rv3.Proposer), 0, world.TxOpts{}, m3)
 			if err != nil {
 				o.Fail = failf("fixture", "tx-build-failed", "%v", err)
 				return o
@@ -418,7 +433,24 @@ func runTxMutCase(c TxMutCase) Outcome {
 			o.Classes = append(o.Classes, "unencodable")
 			continue
 		}
-		raw = mutateBytes(raw, abs(tm.ByteMut), tm.ByteArg)
+		if abs(tm.ByteMut) == 6 {
+			// one field of the message (for the block message: of its payload) is absent on the wire, behind a valid
+			// signature - fields the Go types always encode decode to zero values the code may never have seen
+			path, nf := []int{1, 2}, 10
+			if base == 10 {
+				path, nf = []int{1, 2, 2}, 18
+			}
+			if num, _, ok := sim.Node.AccountInfo(signer.Addr()); ok {
+				if cut, err := world.ResignWithBody(raw, sim.Node.ChainID, num, signer, func(body []byte) ([]byte, bool) {
+					return world.DropProtoField(body, path, 1+int(tm.ByteArg%uint64(nf)))
+				}); err == nil {
+					raw = cut
+					o.Classes = append(o.Classes, "field-absent-on-the-wire")
+				}
+			}
+		} else {
+			raw = mutateBytes(raw, abs(tm.ByteMut), tm.ByteArg)
+		}
 		mode := abs(tm.Mode) % 4
 		o.Classes = append(o.Classes, fmt.Sprintf("%s/mode%d", baseNames[base], mode))
 		where := fmt.Sprintf("tx %d (%s, mutation %d/%d, bytes %d, mode %d)", ti, baseNames[base], abs(tm.Mut), abs(tm.Arg), abs(tm.ByteMut)%6, mode)
@@ -553,7 +585,7 @@ func TestC19_TxMutation(t *testing.T) {
 	RunProp(t, Prop[TxMutCase]{
 		ID: "C19", Name: "tx-mutation", Quick: 480, Thor: 16_000, WAL: true,
 		Gen: func(t *rapid.T) TxMutCase {
-			c := TxMutCase{N: rapid.IntRange(0, 3).Draw(t, "n")}
+			c := TxMutCase{N: rapid.IntRange(0, 3).Draw(t, "n"), Unaccepted: rapid.IntRange(0, 2).Draw(t, "unaccepted") == 0}
 			k := rapid.IntRange(4, 24).Draw(t, "ntx")
 			for i := 0; i < k; i++ {
 				tm := TxMut{Base: int(mix64(rapid.Uint64().Draw(t, "base")) % uint64(len(baseNames))), Arg: rapid.IntRange(0, 1<<16).Draw(t, "arg"),
@@ -562,15 +594,20 @@ func TestC19_TxMutation(t *testing.T) {
 					tm.Mut = 1 + int(mix64(rapid.Uint64().Draw(t, "mut"))%18)
 				}
 				if rapid.IntRange(0, 3).Draw(t, "bytes") == 0 {
-					tm.ByteMut = rapid.IntRange(1, 5).Draw(t, "byteMut")
+					tm.ByteMut = rapid.SampledFrom([]int{1, 2, 3, 4, 5, 6, 6, 6}).Draw(t, "byteMut")
 					tm.ByteArg = rapid.Uint64().Draw(t, "byteArg")
+				}
+				if tm.Base%len(baseNames) == 10 && rapid.IntRange(0, 2).Draw(t, "cutPayloadField") == 0 {
+					// the block message with one payload field absent on the wire, otherwise untouched, through ProcessProposal
+					tm.Mut, tm.ByteMut, tm.ByteArg = 0, 6, uint64(rapid.IntRange(0, 17).Draw(t, "cutField"))
+					tm.Mode = rapid.SampledFrom([]int{2, 2, 3}).Draw(t, "cutMode")
 				}
 				c.Txs = append(c.Txs, tm)
 			}
 			return c
 		},
 		Run:  runTxMutCase,
-		Rule: "on a live chain with pending and processing withdrawals: a well-formed message of each of the 11 relayer/bridge/block message types receives one structural mutation (nil vote / key / payload, bitmap lengths 1..255, signature lengths 0..96, nil and mis-sized list elements, over-long lists, garbage Bitcoin transactions and headers, mis-sized hashes and addresses, extreme integers, malformed request lists, count byte 255, due system transactions dropped / the list cut below the count byte while refunds are due) and/or a byte-level mutation of the signed transaction (truncate, bit flip, append, random bytes, repeated chunk) and is delivered through CheckTx, ProcessProposal (as a later and as the first transaction) or FinalizeBlock; the process must stay alive (write-ahead case file), every call must return, FinalizeBlock must not fail in that block nor in the following ones, and a transaction with a non-zero code must leave the four module stores identical to the twin execution without it; non-trivial = the input passed decoding and reached a handler (or was applied); evaluations count inputs; at the end of every case the real PrepareProposal runs over the mempool the case left behind (stale transactions included), must return within the watchdog time and its proposal must be accepted and executed; one more input kind registers a fresh bridge key twice in one transaction (the second message fails, so the transaction fails as a whole) and then requires the same registration, alone, to be accepted",
+		Rule: "on a live chain with pending and processing withdrawals: a well-formed message of each of the 11 relayer/bridge/block message types receives one structural mutation (nil vote / key / payload, bitmap lengths 1..255, signature lengths 0..96, nil and mis-sized list elements, over-long lists, garbage Bitcoin transactions and headers, mis-sized hashes and addresses, extreme integers, malformed request lists, count byte 255, due system transactions dropped / the list cut below the count byte while refunds are due) and/or a byte-level mutation of the signed transaction (truncate, bit flip, append, random bytes, repeated chunk, or one field cut out of the encoding and the transaction signed again) and is delivered through CheckTx, ProcessProposal (as a later and as the first transaction) or FinalizeBlock; the process must stay alive (write-ahead case file), every call must return, FinalizeBlock must not fail in that block nor in the following ones, and a transaction with a non-zero code must leave the four module stores identical to the twin execution without it; non-trivial = the input passed decoding and reached a handler (or was applied); evaluations count inputs; at the end of every case the real PrepareProposal runs over the mempool the case left behind (stale transactions included), must return within the watchdog time and its proposal must be accepted and executed; one more input kind registers a fresh bridge key twice in one transaction (the second message fails, so the transaction fails as a whole) and then requires the same registration, alone, to be accepted",
 	})
 }
 
